@@ -2,23 +2,33 @@ import SamVerif.Model.StdMap
 /-! Helper lemmas about `Model/StdMap.lean` (structural refinements, balance arithmetic, `balanced`). -/
 namespace SamVerif.StdMap
 set_option linter.unusedSectionVars false
-variable {K V : Type} [DecidableEq K] [DecidableEq V]
+variable {K V : Type} [DecidableEq K] [DecidableEq V] [LE K] [LT K] [Std.IsLinearOrder K] [Std.LawfulOrderLT K] [DecidableLT K]
 
-/-- `cmp` is a total order on keys, represented by an order embedding `rank` into `Int`. -/
-structure Lawful (cmp : K → K → Int) (rank : K → Int) : Prop where
-  lt : ∀ a b, cmp a b < 0 ↔ rank a < rank b
+/-- first try linear arithmetic, then the order/congruence reasoning of `grind` -/
+macro "oo" : tactic => `(tactic| first | omega | grind)
+
+/-- irreflexivity as a simp lemma (the proofs derive `k < k` from misplaced keys) -/
+@[simp] theorem lt_self_false {α : Type} [LE α] [LT α] [Std.IsLinearOrder α] [Std.LawfulOrderLT α] (a : α) :
+    (a < a) ↔ False := by grind
+
+/-- `cmp` (the key's `compare` method) realises the linear order `<` of the key type: negative
+exactly on `<`, zero exactly on equal keys, positive exactly on `>`.  `Lawful.ofCmp`
+(Props/C18.lean) shows that *every* compare that is zero only on equal keys, antisymmetric and
+transitive is of this form. -/
+structure Lawful (cmp : K → K → Int) : Prop where
+  lt : ∀ a b, cmp a b < 0 ↔ a < b
   eq : ∀ a b, cmp a b = 0 ↔ a = b
-  gt : ∀ a b, cmp a b > 0 ↔ rank b < rank a
+  gt : ∀ a b, cmp a b > 0 ↔ b < a
 
 /-- keys strictly ascending in the in-order enumeration -/
-def Ordered (rank : K → Int) (t : Tree K V) : Prop :=
-  (abs t).Pairwise (fun a b => rank a.1 < rank b.1)
+def Ordered (t : Tree K V) : Prop :=
+  (abs t).Pairwise (fun a b => a.1 < b.1)
 
 theorem size_refines (t : Tree K V) : size t = ((abs t).length : Int) := by
   induction t with
   | empty => rfl
   | leaf k v => rfl
-  | node h k v l r ihl ihr => simp [size, abs, ihl, ihr]; omega
+  | node h k v l r ihl ihr => simp [size, abs, ihl, ihr]; oo
 
 theorem entriesHelper_eq (t : Tree K V) (acc : List (K × V)) : entriesHelper t acc = abs t ++ acc := by
   induction t generalizing acc with
@@ -103,13 +113,13 @@ theorem exists_refines (f : K → V → Bool) (t : Tree K V) :
 @[simp] theorem height_node (h : Int) (k : K) (v : V) (l r : Tree K V) : height (Tree.node h k v l r) = h := rfl
 
 theorem height_nonneg (t : Tree K V) (h : Bal t) : 0 ≤ height t := by
-  cases t <;> simp_all [Bal] <;> omega
+  cases t <;> simp_all [Bal] <;> oo
 
 theorem height_zero (t : Tree K V) (h : Bal t) (h0 : height t = 0) : t = .empty := by
-  cases t <;> simp_all [Bal] <;> omega
+  cases t <;> simp_all [Bal] <;> oo
 
 theorem height_one (t : Tree K V) (h : Bal t) (h0 : height t = 1) : ∃ k v, t = .leaf k v := by
-  cases t <;> simp_all [Bal] <;> omega
+  cases t <;> simp_all [Bal] <;> oo
 
 theorem create_spec (l r : Tree K V) (k : K) (v : V) (hl : Bal l) (hr : Bal r)
     (h1 : height l ≤ height r + 2) (h2 : height r ≤ height l + 2) :
@@ -119,16 +129,16 @@ theorem create_spec (l r : Tree K V) (k : K) (v : V) (hl : Bal l) (hr : Bal r)
   have := height_nonneg r hr
   by_cases hc : height l ≥ height r
   · by_cases h1' : height l + 1 = 1
-    · have e1 : height l = 0 := by omega
-      have e2 : height r = 0 := by omega
+    · have e1 : height l = 0 := by oo
+      have e2 : height r = 0 := by oo
       have := height_zero l hl e1
       have := height_zero r hr e2
       subst_vars
       simp [create, Bal, abs]
-    · simp [create, hc, h1', Bal, abs, hl, hr]; omega
+    · simp [create, hc, h1', Bal, abs, hl, hr]; oo
   · by_cases h1' : height r + 1 = 1
-    · omega
-    · simp [create, hc, h1', Bal, abs, hl, hr]; omega
+    · oo
+    · simp [create, hc, h1', Bal, abs, hl, hr]; oo
 
 theorem mkNode_spec (l r : Tree K V) (k : K) (v : V) (hl : Bal l) (hr : Bal r)
     (h1 : height l ≤ height r + 2) (h2 : height r ≤ height l + 2) (hne : height l ≥ 1 ∨ height r ≥ 1) :
@@ -137,12 +147,12 @@ theorem mkNode_spec (l r : Tree K V) (k : K) (v : V) (hl : Bal l) (hr : Bal r)
   have := height_nonneg l hl
   have := height_nonneg r hr
   by_cases hc : height l ≥ height r
-  · simp [mkNode, hc, Bal, abs, hl, hr]; omega
-  · simp [mkNode, hc, Bal, abs, hl, hr]; omega
+  · simp [mkNode, hc, Bal, abs, hl, hr]; oo
+  · simp [mkNode, hc, Bal, abs, hl, hr]; oo
 
 theorem ite_max (a b x : Int) (h : x = if a ≥ b then a + 1 else b + 1) :
     (a ≥ b ∧ x = a + 1) ∨ (a < b ∧ x = b + 1) := by
-  split at h <;> omega
+  split at h <;> oo
 
 theorem balanced_spec (l r : Tree K V) (k : K) (v : V) (hl : Bal l) (hr : Bal r)
     (h1 : height l ≤ height r + 3) (h2 : height r ≤ height l + 3) :
@@ -155,8 +165,8 @@ theorem balanced_spec (l r : Tree K V) (k : K) (v : V) (hl : Bal l) (hr : Bal r)
   have nr := height_nonneg r hr
   by_cases c1 : height l > height r + 2
   · cases l with
-    | empty => simp at c1; omega
-    | leaf a b => simp at c1; omega
+    | empty => simp at c1; oo
+    | leaf a b => simp at c1; oo
     | node lh lk lv ll lr =>
       simp only [Bal] at hl
       obtain ⟨bll, blr, hh, d1, d2, hge⟩ := hl
@@ -165,17 +175,17 @@ theorem balanced_spec (l r : Tree K V) (k : K) (v : V) (hl : Bal l) (hr : Bal r)
       have nlr := height_nonneg lr blr
       simp only [height_node] at c1 h1 h2 nl ⊢
       by_cases c2 : height ll ≥ height lr
-      · have s1 := create_spec lr r k v blr hr (by omega) (by omega)
+      · have s1 := create_spec lr r k v blr hr (by oo) (by oo)
         obtain ⟨b1, a1, e1⟩ := s1
         have s2 := mkNode_spec ll (create lr k v r) lk lv bll b1
-          (by rw [e1]; (repeat' split) <;> omega) (by rw [e1]; (repeat' split) <;> omega)
-          (by rw [e1]; right; split <;> omega)
+          (by rw [e1]; (repeat' split) <;> oo) (by rw [e1]; (repeat' split) <;> oo)
+          (by rw [e1]; right; split <;> oo)
         obtain ⟨b2, a2, e2⟩ := s2
         refine ⟨_, by simp [balanced, c1, c2], b2, by simp [a2, a1, abs], ?_, ?_, ?_⟩ <;>
-          (rw [e2, e1]; (repeat' split) <;> omega)
+          (rw [e2, e1]; (repeat' split) <;> oo)
       · cases lr with
-        | empty => simp at c2; omega
-        | leaf a b => simp at c2 hh; omega
+        | empty => simp at c2; oo
+        | leaf a b => simp at c2 hh; oo
         | node lrh lrk lrv lrl lrr =>
           simp only [Bal] at blr
           obtain ⟨blrl, blrr, hh2, d3, d4, hge2⟩ := blr
@@ -183,26 +193,26 @@ theorem balanced_spec (l r : Tree K V) (k : K) (v : V) (hl : Bal l) (hr : Bal r)
           have := height_nonneg lrl blrl
           have := height_nonneg lrr blrr
           simp only [height_node] at c2 hh d1 d2 nlr
-          have s1 := create_spec ll lrl lk lv bll blrl (by omega)
-            (by omega)
+          have s1 := create_spec ll lrl lk lv bll blrl (by oo)
+            (by oo)
           obtain ⟨b1, a1, e1⟩ := s1
-          have s3 := create_spec lrr r lrk v blrr hr (by omega)
-            (by omega)
+          have s3 := create_spec lrr r lrk v blrr hr (by oo)
+            (by oo)
           obtain ⟨b3, a3, e3⟩ := s3
-          have s3' := create_spec lrr r k v blrr hr (by omega)
-            (by omega)
+          have s3' := create_spec lrr r k v blrr hr (by oo)
+            (by oo)
           obtain ⟨b3', a3', e3'⟩ := s3'
           have s2 := mkNode_spec (create ll lk lv lrl) (create lrr k v r) lrk lrv b1 b3'
-            (by rw [e1, e3']; (repeat' split) <;> omega)
-            (by rw [e1, e3']; (repeat' split) <;> omega)
-            (by rw [e1]; left; split <;> omega)
+            (by rw [e1, e3']; (repeat' split) <;> oo)
+            (by rw [e1, e3']; (repeat' split) <;> oo)
+            (by rw [e1]; left; split <;> oo)
           obtain ⟨b2, a2, e2⟩ := s2
           refine ⟨_, by simp [balanced, c1, c2], b2, by simp [a2, a1, a3', abs], ?_, ?_, ?_⟩ <;>
-            (rw [e2, e1, e3']; (repeat' split) <;> omega)
+            (rw [e2, e1, e3']; (repeat' split) <;> oo)
   · by_cases c3 : height r > height l + 2
     · cases r with
-      | empty => simp at c3; omega
-      | leaf a b => simp at c3; omega
+      | empty => simp at c3; oo
+      | leaf a b => simp at c3; oo
       | node rh rk rv rl rr =>
         simp only [Bal] at hr
         obtain ⟨brl, brr, hh, d1, d2, hge⟩ := hr
@@ -211,17 +221,17 @@ theorem balanced_spec (l r : Tree K V) (k : K) (v : V) (hl : Bal l) (hr : Bal r)
         have nrr := height_nonneg rr brr
         simp only [height_node] at c1 c3 h1 h2 nr ⊢
         by_cases c2 : height rr ≥ height rl
-        · have s1 := create_spec l rl k v hl brl (by omega) (by omega)
+        · have s1 := create_spec l rl k v hl brl (by oo) (by oo)
           obtain ⟨b1, a1, e1⟩ := s1
           have s2 := mkNode_spec (create l k v rl) rr rk rv b1 brr
-            (by rw [e1]; (repeat' split) <;> omega) (by rw [e1]; (repeat' split) <;> omega)
-            (by rw [e1]; left; split <;> omega)
+            (by rw [e1]; (repeat' split) <;> oo) (by rw [e1]; (repeat' split) <;> oo)
+            (by rw [e1]; left; split <;> oo)
           obtain ⟨b2, a2, e2⟩ := s2
           refine ⟨_, by simp [balanced, c1, c3, c2], b2, by simp [a2, a1, abs], ?_, ?_, ?_⟩ <;>
-            (rw [e2, e1]; (repeat' split) <;> omega)
+            (rw [e2, e1]; (repeat' split) <;> oo)
         · cases rl with
-          | empty => simp at c2; omega
-          | leaf a b => simp at c2 hh; omega
+          | empty => simp at c2; oo
+          | leaf a b => simp at c2 hh; oo
           | node rlh rlk rlv rll rlr =>
             simp only [Bal] at brl
             obtain ⟨brll, brlr, hh2, d3, d4, hge2⟩ := brl
@@ -229,48 +239,48 @@ theorem balanced_spec (l r : Tree K V) (k : K) (v : V) (hl : Bal l) (hr : Bal r)
             have := height_nonneg rll brll
             have := height_nonneg rlr brlr
             simp only [height_node] at c2 hh d1 d2 nrl
-            have s1 := create_spec l rll k v hl brll (by omega)
-              (by omega)
+            have s1 := create_spec l rll k v hl brll (by oo)
+              (by oo)
             obtain ⟨b1, a1, e1⟩ := s1
-            have s3 := create_spec rlr rr rk rv brlr brr (by omega)
-              (by omega)
+            have s3 := create_spec rlr rr rk rv brlr brr (by oo)
+              (by oo)
             obtain ⟨b3, a3, e3⟩ := s3
             have s2 := mkNode_spec (create l k v rll) (create rlr rk rv rr) rlk rlv b1 b3
-              (by rw [e1, e3]; (repeat' split) <;> omega)
-              (by rw [e1, e3]; (repeat' split) <;> omega)
-              (by rw [e3]; right; split <;> omega)
+              (by rw [e1, e3]; (repeat' split) <;> oo)
+              (by rw [e1, e3]; (repeat' split) <;> oo)
+              (by rw [e3]; right; split <;> oo)
             obtain ⟨b2, a2, e2⟩ := s2
             refine ⟨_, by simp [balanced, c1, c3, c2], b2, by simp [a2, a1, a3, abs], ?_, ?_, ?_⟩ <;>
-              (rw [e2, e1, e3]; (repeat' split) <;> omega)
-    · have s1 := create_spec l r k v hl hr (by omega) (by omega)
+              (rw [e2, e1, e3]; (repeat' split) <;> oo)
+    · have s1 := create_spec l r k v hl hr (by oo) (by oo)
       obtain ⟨b1, a1, e1⟩ := s1
-      refine ⟨_, by simp [balanced, c1, c3], b1, a1, ?_, ?_, ?_⟩ <;> (rw [e1]; (repeat' split) <;> omega)
+      refine ⟨_, by simp [balanced, c1, c3], b1, a1, ?_, ?_, ?_⟩ <;> (rw [e1]; (repeat' split) <;> oo)
 
-theorem ordered_node {rank : K → Int} {h : Int} {k : K} {v : V} {l r : Tree K V}
-    (ho : Ordered rank (.node h k v l r)) :
-    Ordered rank l ∧ Ordered rank r ∧ (∀ p ∈ abs l, rank p.1 < rank k) ∧ (∀ p ∈ abs r, rank k < rank p.1) := by
+theorem ordered_node {h : Int} {k : K} {v : V} {l r : Tree K V}
+    (ho : Ordered (.node h k v l r)) :
+    Ordered l ∧ Ordered r ∧ (∀ p ∈ abs l, p.1 < k) ∧ (∀ p ∈ abs r, k < p.1) := by
   simp only [Ordered, abs, List.pairwise_append, List.pairwise_cons] at ho
   obtain ⟨h1, ⟨h2, h3⟩, h4⟩ := ho
   exact ⟨h1, h3, fun p hp => h4 p hp (k, v) (by simp), h2⟩
 
-theorem ordered_of_parts {rank : K → Int} {k : K} {v : V} {a b : List (K × V)}
-    (ha : a.Pairwise (fun x y => rank x.1 < rank y.1)) (hb : b.Pairwise (fun x y => rank x.1 < rank y.1))
-    (h1 : ∀ p ∈ a, rank p.1 < rank k) (h2 : ∀ p ∈ b, rank k < rank p.1) :
-    (a ++ (k, v) :: b).Pairwise (fun x y => rank x.1 < rank y.1) := by
+theorem ordered_of_parts {k : K} {v : V} {a b : List (K × V)}
+    (ha : a.Pairwise (fun x y => x.1 < y.1)) (hb : b.Pairwise (fun x y => x.1 < y.1))
+    (h1 : ∀ p ∈ a, p.1 < k) (h2 : ∀ p ∈ b, k < p.1) :
+    (a ++ (k, v) :: b).Pairwise (fun x y => x.1 < y.1) := by
   simp only [List.pairwise_append, List.pairwise_cons]
   refine ⟨ha, ⟨h2, hb⟩, ?_⟩
   intro a haa b hbb
   rcases List.mem_cons.1 hbb with e | e
   · subst e; exact h1 a haa
-  · have := h1 a haa; have := h2 b e; omega
+  · have := h1 a haa; have := h2 b e; oo
 
-theorem insert_spec {cmp : K → K → Int} {rank : K → Int} (hc : Lawful cmp rank) (t : Tree K V) (k : K) (v : V)
-    (hb : Bal t) (ho : Ordered rank t) :
-    ∃ t', insert cmp t k v = some t' ∧ Bal t' ∧ Ordered rank t' ∧
+theorem insert_spec {cmp : K → K → Int} (hc : Lawful cmp) (t : Tree K V) (k : K) (v : V)
+    (hb : Bal t) (ho : Ordered t) :
+    ∃ t', insert cmp t k v = some t' ∧ Bal t' ∧ Ordered t' ∧
       (∀ p, p ∈ abs t' ↔ (p = (k, v) ∨ (p ∈ abs t ∧ p.1 ≠ k))) ∧
       height t ≤ height t' ∧ height t' ≤ height t + 1 := by
   induction t with
-  | empty => exact ⟨.leaf k v, rfl, by simp [Bal], by simp [Ordered, abs], by simp [abs], by (first | (simp; done) | (simp; omega))⟩
+  | empty => exact ⟨.leaf k v, rfl, by simp [Bal], by simp [Ordered, abs], by simp [abs], by (first | (simp; done) | (simp; oo))⟩
   | leaf k' v' =>
     have hlt := hc.lt k k'; have heq := hc.eq k k'; have hgt := hc.gt k k'
     simp only [insert]
@@ -278,16 +288,16 @@ theorem insert_spec {cmp : K → K → Int} {rank : K → Int} (hc : Lawful cmp 
     · have : k = k' := heq.1 c0
       subst this
       by_cases cv : v' = v
-      · subst cv; exact ⟨.leaf k v', by simp [c0], hb, ho, by simp [abs], by (first | (simp; done) | (simp; omega))⟩
-      · exact ⟨.leaf k v, by simp [c0, cv], by simp [Bal], by simp [Ordered, abs], by simp [abs]; try grind, by (first | (simp; done) | (simp; omega))⟩
+      · subst cv; exact ⟨.leaf k v', by simp [c0], hb, ho, by simp [abs], by (first | (simp; done) | (simp; oo))⟩
+      · exact ⟨.leaf k v, by simp [c0, cv], by simp [Bal], by simp [Ordered, abs], by simp [abs]; try grind, by (first | (simp; done) | (simp; oo))⟩
     · by_cases c1 : cmp k k' < 0
-      · refine ⟨.node 2 k v .empty (.leaf k' v'), by simp [c0, c1], by simp [Bal], ?_, ?_, by (first | (simp; done) | (simp; omega))⟩
-        · simp [Ordered, abs]; omega
-        · have nk : k' ≠ k := by intro e; subst e; simp at hlt; omega
+      · refine ⟨.node 2 k v .empty (.leaf k' v'), by simp [c0, c1], by simp [Bal], ?_, ?_, by (first | (simp; done) | (simp; oo))⟩
+        · simp [Ordered, abs]; oo
+        · have nk : k' ≠ k := by intro e; subst e; grind
           simp [abs]; grind
-      · refine ⟨.node 2 k v (.leaf k' v') .empty, by simp [c0, c1], by simp [Bal], ?_, ?_, by (first | (simp; done) | (simp; omega))⟩
-        · simp [Ordered, abs]; omega
-        · have nk : k' ≠ k := by intro e; subst e; simp at heq; omega
+      · refine ⟨.node 2 k v (.leaf k' v') .empty, by simp [c0, c1], by simp [Bal], ?_, ?_, by (first | (simp; done) | (simp; oo))⟩
+        · simp [Ordered, abs]; oo
+        · have nk : k' ≠ k := by intro e; subst e; grind
           simp [abs]; grind
   | node h k' v' l r ihl ihr =>
     have hlt := hc.lt k k'; have heq := hc.eq k k'; have hgt := hc.gt k k'
@@ -302,20 +312,20 @@ theorem insert_spec {cmp : K → K → Int} {rank : K → Int} (hc : Lawful cmp 
       subst this
       have nk : ∀ p, p ∈ abs l ∨ p ∈ abs r → p.1 ≠ k := by
         intro p hp e; subst e; rcases hp with hp | hp
-        · have := bl p hp; omega
-        · have := br p hp; omega
+        · have := bl p hp; oo
+        · have := br p hp; oo
       by_cases cv : v' = v
       · subst cv
-        refine ⟨.node h k v' l r, by simp [c0], hb', ho, ?_, by (first | (simp; done) | (simp; omega))⟩
+        refine ⟨.node h k v' l r, by simp [c0], hb', ho, ?_, by (first | (simp; done) | (simp; oo))⟩
         simp [abs]; grind
-      · refine ⟨.node h k v l r, by simp [c0, cv], by simp [Bal, bll, brr, d1, d2, hge]; omega, ?_, ?_, by (first | (simp; done) | (simp; omega))⟩
+      · refine ⟨.node h k v l r, by simp [c0, cv], by simp [Bal, bll, brr, d1, d2, hge]; oo, ?_, ?_, by (first | (simp; done) | (simp; oo))⟩
         · simp only [Ordered, abs]; exact ordered_of_parts ol or bl br
         · simp [abs]; grind
     · by_cases c1 : cmp k k' < 0
       · obtain ⟨ll, e, b1, o1, m1, g1, g2⟩ := ihl bll ol
-        have bs := balanced_spec ll r k' v' b1 brr (by omega) (by omega)
+        have bs := balanced_spec ll r k' v' b1 brr (by oo) (by oo)
         obtain ⟨t', e2, b2, a2, g3, g4, g5⟩ := bs
-        have ord : (abs ll ++ (k', v') :: abs r).Pairwise (fun x y => rank x.1 < rank y.1) := by
+        have ord : (abs ll ++ (k', v') :: abs r).Pairwise (fun x y => x.1 < y.1) := by
           apply ordered_of_parts o1 or _ br
           intro p hp
           rcases (m1 p).1 hp with hp | hp
@@ -325,22 +335,22 @@ theorem insert_spec {cmp : K → K → Int} {rank : K → Int} (hc : Lawful cmp 
             (p = (k, v) ∨ (p ∈ abs l ++ (k', v') :: abs r ∧ p.1 ≠ k)) := by
           intro p
           have := m1 p
-          have nk : k' ≠ k := by intro e; subst e; simp at hlt; omega
+          have nk : k' ≠ k := by intro e; subst e; grind
           have nr : ∀ q ∈ abs r, q.1 ≠ k := by
-            intro q hq e; have := br q hq; rw [e] at this; have := hlt.1 c1; omega
+            intro q hq e; have := br q hq; rw [e] at this; have := hlt.1 c1; oo
           simp only [List.mem_append, List.mem_cons]
           grind
         by_cases same : l = ll
         · subst same
-          exact ⟨.node h k' v' l r, by simp [c0, c1, e], hb', ho, by simpa [abs] using mem, by (first | (simp; done) | (simp; omega))⟩
+          exact ⟨.node h k' v' l r, by simp [c0, c1, e], hb', ho, by simpa [abs] using mem, by (first | (simp; done) | (simp; oo))⟩
         · refine ⟨t', by simp [c0, c1, e, same, e2], b2, by simpa [Ordered, a2] using ord,
             by simpa [a2, abs] using mem, ?_, ?_⟩ <;> simp only [height_node] <;>
-            (repeat' split at g3) <;> (repeat' split at g4) <;> omega
-      · have c2 : cmp k k' > 0 := by omega
+            (repeat' split at g3) <;> (repeat' split at g4) <;> oo
+      · have c2 : cmp k k' > 0 := by oo
         obtain ⟨rr, e, b1, o1, m1, g1, g2⟩ := ihr brr or
-        have bs := balanced_spec l rr k' v' bll b1 (by omega) (by omega)
+        have bs := balanced_spec l rr k' v' bll b1 (by oo) (by oo)
         obtain ⟨t', e2, b2, a2, g3, g4, g5⟩ := bs
-        have ord : (abs l ++ (k', v') :: abs rr).Pairwise (fun x y => rank x.1 < rank y.1) := by
+        have ord : (abs l ++ (k', v') :: abs rr).Pairwise (fun x y => x.1 < y.1) := by
           apply ordered_of_parts ol o1 bl
           intro p hp
           rcases (m1 p).1 hp with hp | hp
@@ -350,16 +360,16 @@ theorem insert_spec {cmp : K → K → Int} {rank : K → Int} (hc : Lawful cmp 
             (p = (k, v) ∨ (p ∈ abs l ++ (k', v') :: abs r ∧ p.1 ≠ k)) := by
           intro p
           have := m1 p
-          have nk : k' ≠ k := by intro e; subst e; simp at hgt; omega
+          have nk : k' ≠ k := by intro e; subst e; grind
           have nr : ∀ q ∈ abs l, q.1 ≠ k := by
-            intro q hq e; have := bl q hq; rw [e] at this; have := hgt.1 c2; omega
+            intro q hq e; have := bl q hq; rw [e] at this; have := hgt.1 c2; oo
           simp only [List.mem_append, List.mem_cons]
           grind
         by_cases same : r = rr
         · subst same
-          exact ⟨.node h k' v' l r, by simp [c0, c1, e], hb', ho, by simpa [abs] using mem, by (first | (simp; done) | (simp; omega))⟩
+          exact ⟨.node h k' v' l r, by simp [c0, c1, e], hb', ho, by simpa [abs] using mem, by (first | (simp; done) | (simp; oo))⟩
         · refine ⟨t', by simp [c0, c1, e, same, e2], b2, by simpa [Ordered, a2] using ord,
             by simpa [a2, abs] using mem, ?_, ?_⟩ <;> simp only [height_node] <;>
-            (repeat' split at g3) <;> (repeat' split at g4) <;> omega
+            (repeat' split at g3) <;> (repeat' split at g4) <;> oo
 
 end SamVerif.StdMap
